@@ -44,7 +44,7 @@ func recordBoundaries(d []byte) []int {
 	if n := rd(); n >= 0 { // compressSrv
 		o += n
 		add(o)
-		rd() // minLength
+		rd()                  // minLength
 		if n = rd(); n >= 0 { // filter
 			o += n
 			add(o)
